@@ -24,6 +24,8 @@ struct Value {
   Kind k = Null;
   uint64_t u = 0;  // Uint: value; Sint: two's complement bits; Real: bit pattern
   bool neg_zero_int = false;  // the spelling was the integer "-0"
+  bool aux = false;           // free for engines (domexplore: "this object has a lookup map")
+  int skind = 0;              // free for engines (domexplore: string ownership kind in the model)
   std::string s;
   std::vector<Value> a;
   std::vector<std::pair<std::string, Value>> o;
